@@ -100,6 +100,10 @@ func (g *opGate) drive(order []string, done <-chan struct{}) {
 func (c16) Run(c *Ctx, i int) CaseResult {
 	r := c.Rand(i + 51000000)
 	k := 1 + r.Intn(5)
+	if r.Intn(6) == 0 {
+		// a large batch (any bound on the number of operations handled at once must still serve all of them)
+		k = 7 + r.Intn(17)
+	}
 	var ops []map[string]interface{}
 	var names []string
 	contacting := 0
